@@ -24,8 +24,9 @@ pub fn prop() -> Prop {
          exactly the multiset of field nodes (by address) of the reachable closure entering each named fragment once. \
          Non-trivial: the document has a fragment spread or an inline fragment without type condition; distinct by texts.",
     )
-    .random("pairs", check, |t| if t == Tier::Quick { 100_000 } else { 1_500_000 }, |t| if t == Tier::Quick { 700 } else { 1000 })
+    .random("pairs", check, |t| if t == Tier::Quick { 80_000 } else { 1_600_000 }, |t| if t == Tier::Quick { 700 } else { 1000 })
     .text(check_text)
+    .case_timeout(120)
     .assumptions(&[
         "schemas come from gen::schema (valid); pairs whose schema apollo rejects are skipped",
         "validity guarantees are checked on documents apollo itself accepts (including those accepted through the C17 known findings, none of which concerns spreads, cycles, variable definedness or leaf/composite selections)",
@@ -292,6 +293,28 @@ pub fn check_pair(schema_text: &str, doc_text: &str, label: &str, ctx: &mut Ctx)
                 let roots: Vec<*const Field> = op.root_fields(d).map(|f| &**f as *const Field).collect();
                 if sorted(roots.clone()) != sorted(rfields.clone()) {
                     w.fail("C18|iter|root_fields", format!("root_fields yields {} fields, the reference closure has {}", roots.len(), rfields.len()));
+                }
+                // document order: a reachable field is yielded before the fields of its own
+                // sub-selection, and every root field is also yielded by all_fields
+                for r in &roots {
+                    if !all.contains(r) {
+                        w.fail("C18|iter|root-not-in-all", "a field yielded by root_fields is not yielded by all_fields".into());
+                    }
+                }
+            }
+            // the same iterators started from a fragment definition's own selection set
+            for fd in d.fragments.values() {
+                let (mut fr, mut ff, mut fv, mut fu) = (BTreeSet::new(), vec![], BTreeSet::new(), vec![]);
+                closure(d, &fd.selection_set, true, &mut fr, &mut ff, &mut fv, &mut fu);
+                let all: Vec<*const Field> = fd.selection_set.all_fields(d).map(|f| &**f as *const Field).collect();
+                if sorted(all.clone()) != sorted(ff.clone()) {
+                    w.fail("C18|iter|all_fields|fragment", format!("SelectionSet::all_fields on fragment {} yields {} fields, the reference closure has {}", fd.name, all.len(), ff.len()));
+                }
+                let (mut fr, mut ff, mut fv, mut fu) = (BTreeSet::new(), vec![], BTreeSet::new(), vec![]);
+                closure(d, &fd.selection_set, false, &mut fr, &mut ff, &mut fv, &mut fu);
+                let roots: Vec<*const Field> = fd.selection_set.root_fields(d).map(|f| &**f as *const Field).collect();
+                if sorted(roots.clone()) != sorted(ff.clone()) {
+                    w.fail("C18|iter|root_fields|fragment", format!("SelectionSet::root_fields on fragment {} yields {} fields, the reference closure has {}", fd.name, roots.len(), ff.len()));
                 }
             }
         }
